@@ -151,9 +151,18 @@ func (p c13) Gen(r *simhook.Rand, tier string, idx int) harness.Scenario {
 			case x < 29:
 				a = append(world.Bins([]string{"SETEX", "PSETEX"}[r.Intn(2)], key, fmt.Sprint(1+r.Intn(5000))), v())
 			case x < 35:
+				// No key twice in one MSET: the proxy splits MSET into one SET per key, and the order in which the
+				// SETs of one key execute when one of them is redirected is C04's subject (known finding
+				// program-order-across-redirection), not a matter of compression.
 				a = world.Bins("MSET")
+				used := map[string]bool{}
 				for i := 0; i < 1+r.Intn(3); i++ {
-					a = append(a, world.Bin(keys[r.Intn(len(keys))]), v())
+					k, val := keys[r.Intn(len(keys))], v()
+					if used[k] {
+						continue
+					}
+					used[k] = true
+					a = append(a, world.Bin(k), val)
 				}
 			case x < 43:
 				a = world.Bins([]string{"HSET", "HMSET"}[r.Intn(2)], hkey)
